@@ -20,6 +20,7 @@ from __future__ import annotations
 
 import atexit
 import builtins
+import errno
 import datetime
 import io
 import itertools
@@ -27,6 +28,7 @@ import multiprocessing
 import os
 import pathlib
 import shutil
+import sys
 import tempfile
 import uuid
 
@@ -53,10 +55,16 @@ def _rank(v):
     if isinstance(v, int):
         return v
     return VERSIONS.index(v) if v in VERSIONS else ALT.get(v, v)
-MEMBERS = ['__4ml__.py', 'foo.py', 'bar.py']  # member index of a directory package = position here
+MEMBERS = ['__4ml__.py', 'foo.py', 'bar.py', 'baz.py']  # member index of a directory package = position here
+KINDS = ['file', 'dir', 'dir2']  # 'dir2': a REBUILD of the 'dir' package of that version — other bytes in foo.py, baz.py
+# added, bar.py present exactly when 'dir' has none (files only in the old, only in the new, in both with different bytes)
 _BASE = tempfile.mkdtemp(prefix='verif-c05-')
 atexit.register(shutil.rmtree, _BASE, ignore_errors=True)
 _COUNTER = itertools.count()
+
+
+FAULT_ERRNOS = [errno.EMFILE, errno.EACCES, errno.EIO, errno.ESTALE, errno.ENOENT]  # ENOENT only where it is the truth
+FAULT_CAP = 36  # fault points explored per step (evenly spread over its file-system calls when there are more)
 
 
 class Crash(BaseException):
@@ -71,7 +79,7 @@ class Recorder:
     shutil.copyfile / shutil.rmtree for paths below `root`; records every *successful* mutating micro-operation; dies after
     `crash_at` completed ones (inside the next write with `cut` when that is given)."""
 
-    def __init__(self, root: str, crash_at=None, cut: bool = False):
+    def __init__(self, root: str, crash_at=None, cut: bool = False, fault=None):
         self.root = os.path.realpath(root)
         self.calls: list = []  # [(method, [op, ...])]
         self.done = 0
@@ -80,6 +88,53 @@ class Recorder:
         self.dead = False
         self._nested = 0
         self._saved = {}
+        # transient I/O faults: `fault` = 'log' (only count the file-system calls, reads included) or (index, errno): the
+        # index-th file-system call below the root raises OSError(errno) ONCE; the process lives on
+        self.fault = fault
+        self.ncalls = 0
+        self.call_log: list = []  # [(kind, micro-operations completed before, lenient?)]
+        self.hit = None  # {'kind', 'done', 'lenient', 'errno'} once the fault was raised
+
+    def _tick(self, kind: str, path, lenient: bool = False, swallow: bool = False):
+        """Called before every file-system call below the root when faults are on.  `lenient`: a call whose failure the
+        code under test may legitimately absorb (mkdir of an existing directory under exist_ok).  Returns True when the
+        fault hits a call that absorbs it itself (`rmtree(ignore_errors=True)`): the caller skips the call."""
+        if self.fault is None or self._nested:
+            return False
+        index = self.ncalls
+        self.ncalls += 1
+        self.call_log.append((kind, self.done, lenient))
+        if self.fault == 'log' or self.hit is not None or index != self.fault[0]:
+            return False
+        code = self.fault[1]
+        self._nested += 1
+        try:
+            missing = not os.path.lexists(os.fspath(path))
+        finally:
+            self._nested -= 1
+        if code == errno.ENOENT:
+            if missing or kind == 'mkdir':
+                lenient = True  # the truth (nothing there) resp. retried by mkdir(parents=True)
+            else:
+                code = errno.EIO  # ENOENT for something that exists is not a transient fault but a lying file system
+        self.hit = {'kind': kind, 'done': self.done, 'lenient': lenient, 'errno': errno.errorcode[code], 'index': index}
+        if swallow:
+            return True
+        raise OSError(code, os.strerror(code), os.fspath(path))
+
+    def _read(self, which: str):
+        """wrapper of a read-only call (stat / lstat / listdir / scandir): only counted / faulted"""
+        orig = self._saved[which]
+
+        def wrapper(path, *a, **k):
+            if self.fault is not None and not self._nested and not isinstance(path, int) and self._mine(path):
+                # os.path.exists / isdir / isfile / islink / lexists answer False on ANY OSError: a fault there is
+                # absorbed by the standard library (e.g. inside os.makedirs), not by the code under test
+                caller = sys._getframe(1).f_code.co_filename  # pylint: disable=protected-access
+                self._tick(which, path, lenient='genericpath' in caller or 'posixpath' in caller)
+            return orig(path, *a, **k)
+
+        return wrapper
 
     # -- bookkeeping
     def _mine(self, path) -> bool:
@@ -121,6 +176,13 @@ class Recorder:
     def _mkdir(self, path, *a, **k):
         if not self._mine(path) or self._nested:
             return self._saved['mkdir'](path, *a, **k)
+        if self.fault is not None:
+            self._nested += 1
+            try:
+                there = os.path.isdir(path)
+            finally:
+                self._nested -= 1
+            self._tick('mkdir', path, lenient=there)
         self._gate()
         r = self._saved['mkdir'](path, *a, **k)  # FileExistsError / FileNotFoundError propagate unrecorded
         self._record(('mkdir', self._rel(path)))
@@ -129,6 +191,7 @@ class Recorder:
     def _rename(self, src, dst, *a, **k):
         if not (self._mine(src) or self._mine(dst)) or self._nested:
             return self._saved['rename'](src, dst, *a, **k)
+        self._tick('rename', src)
         self._gate()
         r = self._saved['rename'](src, dst, *a, **k)
         self._record(('rename', self._rel(src), self._rel(dst)))
@@ -138,6 +201,7 @@ class Recorder:
         def wrapper(path, *a, **k):
             if not self._mine(path) or self._nested:
                 return self._saved[which](path, *a, **k)
+            self._tick(which, path)
             self._gate()
             r = self._saved[which](path, *a, **k)
             self._record(('remove', self._rel(path)))
@@ -146,11 +210,18 @@ class Recorder:
         return wrapper
 
     def _open(self, file, mode='r', *a, **k):
-        if self._nested or not isinstance(mode, str) or not any(c in mode for c in 'wax+') \
-                or isinstance(file, int) or not self._mine(file):
+        if self._nested or not isinstance(mode, str) or isinstance(file, int) or not self._mine(file):
             return self._saved['open'](file, mode, *a, **k)
+        if not any(c in mode for c in 'wax+'):
+            self._tick('open-r', file)
+            return self._saved['open'](file, mode, *a, **k)
+        self._tick('open-w', file)
         self._gate()
-        existed = os.path.exists(file)
+        self._nested += 1
+        try:
+            existed = os.path.exists(file)
+        finally:
+            self._nested -= 1
         raw = self._saved['open'](file, mode, *a, **k)
         if 'w' in mode or not existed:
             self._record(('create', self._rel(file)))
@@ -159,6 +230,7 @@ class Recorder:
     def _copyfile(self, src, dst, *a, **k):
         if self._nested or not self._mine(dst):
             return self._saved['copyfile'](src, dst, *a, **k)
+        self._tick('open-w', dst)
         self._gate()
         self._nested += 1
         try:
@@ -168,6 +240,7 @@ class Recorder:
         finally:
             self._nested -= 1
         self._record(('create', self._rel(dst)))
+        self._tick('write', dst)
         part = self._gate(partial_ok=len(data) >= 2)
         self._nested += 1
         try:
@@ -182,12 +255,20 @@ class Recorder:
 
     def _rmtree(self, path, *a, **k):
         """One micro-operation (its unlink / rmdir sequence is not split), and only when there is a directory to remove."""
-        if self._nested or not self._mine(path) or os.path.islink(path) or not os.path.isdir(path):
+        self._nested += 1
+        try:
+            plain = not self._mine(path) or os.path.islink(path) or not os.path.isdir(path)
+        finally:
+            self._nested -= 1
+        if self._nested or plain:
             self._nested += 1
             try:
                 return self._saved['rmtree'](path, *a, **k)
             finally:
                 self._nested -= 1
+        absorbs = bool(k.get('ignore_errors') or (a and a[0]))
+        if self._tick('rmtree', path, swallow=absorbs):
+            return None  # `ignore_errors=True`: the error is swallowed, the tree stays
         self._gate()
         self._nested += 1
         try:
@@ -201,6 +282,10 @@ class Recorder:
         self._saved = {'mkdir': os.mkdir, 'rename': os.rename, 'replace': os.replace, 'unlink': os.unlink,
                        'remove': os.remove, 'rmdir': os.rmdir, 'open': io.open, 'bopen': builtins.open,
                        'copyfile': shutil.copyfile, 'rmtree': shutil.rmtree}
+        if self.fault is not None:
+            for which in ('stat', 'lstat', 'listdir', 'scandir'):
+                self._saved[which] = getattr(os, which)
+                setattr(os, which, self._read(which))
         os.mkdir = self._mkdir
         os.rename = self._rename
         os.replace = lambda s, d, *a, **k: self._rename(s, d, *a, **k)
@@ -214,6 +299,9 @@ class Recorder:
         return self
 
     def __exit__(self, *exc):
+        if self.fault is not None:
+            for which in ('stat', 'lstat', 'listdir', 'scandir'):
+                setattr(os, which, self._saved[which])
         os.mkdir = self._saved['mkdir']
         os.rename = self._saved['rename']
         os.replace = self._saved['replace']
@@ -235,6 +323,7 @@ class _Proxy:
 
     def write(self, data):
         blob = data.encode() if isinstance(data, str) else bytes(data)
+        self._rec._tick('write', os.path.join(self._rec.root, *self._relp))
         part = self._rec._gate(partial_ok=len(blob) >= 2)
         if part:
             self._raw.write(data[: len(data) // 2])
@@ -263,7 +352,8 @@ _PACKAGES: dict = {}
 
 
 def _package(name: str, vidx, kind: str):
-    """(prj.Package, model pkg) of project `name`, version `vidx` (rank or spelling); 'file' = .4ml zip, 'dir' = source tree."""
+    """(prj.Package, model pkg) of project `name`, version `vidx` (rank or spelling); 'file' = .4ml zip, 'dir' = source tree,
+    'dir2' = another source tree of the same name and version (a rebuild with different content)."""
     from forml import project as prj
 
     text = _ver(vidx)
@@ -280,7 +370,10 @@ def _package(name: str, vidx, kind: str):
             model = ['file', list(package.path.read_bytes())]
         else:
             manifest.write(src)
-            if vidx % 2:
+            if kind == 'dir2':
+                (src / 'foo.py').write_text(f'X = {vidx}\nZ = 2\n')
+                (src / 'baz.py').write_text('B = 1\n')
+            if bool(vidx % 2) == (kind == 'dir'):
                 (src / 'bar.py').write_text('Y = 1\n')
             package = prj.Package(src)
             order = [e.name for e in os.scandir(src) if e.name != '__pycache__']  # the order copytree will use
@@ -427,6 +520,12 @@ def _read_tree(root: str) -> list:
 
 def _do_step(root: str, step: list, sid0: int, crash_at=None, cut=False, clear=True):
     """One history step on the real code in the tree `root`. Returns (outcome, calls, next sid, crashed?)."""
+    outcome, rec, nsid, crashed = _do_step_rec(root, step, sid0, crash_at, cut, clear)
+    return outcome, rec.calls, nsid, crashed
+
+
+def _do_step_rec(root: str, step: list, sid0: int, crash_at=None, cut=False, clear=True, fault=None):
+    """... with the recorder itself (its call log and what a transient fault hit) instead of the calls"""
     from forml.io import asset
     from forml.provider.registry.filesystem import posix
 
@@ -434,7 +533,7 @@ def _do_step(root: str, step: list, sid0: int, crash_at=None, cut=False, clear=T
         _clear_caches()
     registry = posix.Registry(root)
     directory = asset.Directory(registry)
-    rec = Recorder(root, crash_at, cut)
+    rec = Recorder(root, crash_at, cut, fault)
     uuids = _Uuids(sid0)
     saved_uuid4 = uuid.uuid4
     saved = {m: getattr(posix.Registry, m) for m in ('write', 'close', 'push')}
@@ -480,7 +579,7 @@ def _do_step(root: str, step: list, sid0: int, crash_at=None, cut=False, clear=T
         for m, f in saved.items():
             setattr(posix.Registry, m, f)
         uuid.uuid4 = saved_uuid4
-    return outcome, rec.calls, uuids.next, crashed
+    return outcome, rec, uuids.next, crashed
 
 
 def _read_view(root: str, clear: bool = True) -> list:
@@ -562,20 +661,60 @@ def _model_cut(canon_calls, k: int):
     return 1 if path[-1] in ('tag', 'tagtmp') else len(payload) // 2
 
 
-def run_history(history: list, crash_points: bool = True, only=None) -> dict:
+def _fault_indices(ncalls: int, cap: int = FAULT_CAP) -> list:
+    if ncalls <= cap:
+        return list(range(ncalls))
+    return sorted({round(i * (ncalls - 1) / (cap - 1)) for i in range(cap)})
+
+
+def run_history(history: list, crash_points: bool = True, only=None, fault_points=False, only_fault=None,
+                fault_cap: int = FAULT_CAP) -> dict:
     """Base run (trace + view + raw tree after every event) and, from the snapshot before each plain step, every
     crash point of it (`crash_points='last'`: only of the last step).  A history item is a step or ['crash', step, where, cut]: the step is killed on the live tree
     (`where`: a float in [0, 1) = fraction of the step's micro-operations, or an int = their number) and the history
-    goes on.  `only` = (i, k, cut) restricts the crash points to one (replay)."""
+    goes on.  `only` = (i, k, cut) restricts the crash points to one (replay).
+    A history item ['fault', step, where, e] runs the step on the live tree with a transient OSError (FAULT_ERRNOS[e])
+    raised once at one of its file-system calls (`where`: fraction of the calls, or their index); the process lives on
+    and the history continues.  `fault_points`: every plain step is also re-run from the snapshot before it with a fault
+    at (up to FAULT_CAP of) its file-system calls; `only_fault` = (i, call index, e) restricts that to one (replay)."""
     root = _fresh_root()
     os.makedirs(os.path.join(root, 'live'))
     live = os.path.join(root, 'live')
     views, trees = [_read_view(live)], [_read_tree(live)]
     outcomes, traces, crashes, sid_start, events, killed = [], [], [], [], [], []
+    faults, faulted = [], {}
+    concrete = []  # the history with every crash / fault point spelt out (what a witness replays)
     sid = 0
     for i, item in enumerate(history):
         snap = os.path.join(root, f'snap{i}')
         shutil.copytree(live, snap)
+        if item[0] == 'fault':
+            _, step, where, eidx = item
+            scratch = os.path.join(root, f'base{i}')
+            shutil.copytree(snap, scratch)
+            _, brec, _, _ = _do_step_rec(scratch, step, sid, fault='log')
+            shutil.rmtree(scratch, ignore_errors=True)
+            if brec.ncalls == 0:
+                item = step
+            else:
+                idx = min(int(where * brec.ncalls), brec.ncalls - 1) if isinstance(where, float) else min(where, brec.ncalls - 1)
+                outcome, frec, nsid, _ = _do_step_rec(live, step, sid, fault=(idx, FAULT_ERRNOS[eidx % len(FAULT_ERRNOS)]))
+                hit = frec.hit or {'kind': None, 'done': 0, 'lenient': True, 'errno': None, 'index': idx}
+                sid_start.append(sid)
+                views.append(_read_view(live))
+                trees.append(_read_tree(live))
+                if outcome == 'ok':  # absorbed by the code: for the model this is the plain step
+                    outcomes.append('ok')
+                    traces.append(_canon_calls(frec.calls))
+                    events.append(step)
+                else:
+                    outcomes.append('faulted')
+                    traces.append(None)
+                    events.append(['fault', step, hit['done']])
+                faulted[i] = dict(hit, outcome=outcome, step=step)
+                concrete.append(['fault', step, idx, eidx % len(FAULT_ERRNOS)])
+                sid = nsid
+                continue
         if item[0] == 'crash':
             _, step, where, cut = item
             scratch = os.path.join(root, f'base{i}')
@@ -599,9 +738,11 @@ def run_history(history: list, crash_points: bool = True, only=None) -> dict:
                 trees.append(_read_tree(live))
                 killed.append({'i': i, 'k': k, 'cut': cut, 'crashed': crashed or k >= len(atoms),
                                'completed': len(_atoms(ccalls)), 'complete_view': complete})
+                concrete.append(['crash', step, k, cut])
                 sid = nsid
                 continue
         step = item
+        concrete.append(step)
         outcome, calls, nsid, _ = _do_step(live, step, sid)
         outcomes.append(outcome)
         sid_start.append(sid)
@@ -627,10 +768,29 @@ def run_history(history: list, crash_points: bool = True, only=None) -> dict:
                             'crashed': crashed, 'completed': len(_atoms(ccalls)), 'view': _read_view(scratch),
                             'tree': _read_tree(scratch)})
             shutil.rmtree(scratch, ignore_errors=True)
+        if (fault_points and only_fault is None) or (only_fault is not None and only_fault[0] == i):
+            scratch = os.path.join(root, f'flog{i}')
+            shutil.copytree(snap, scratch)
+            _, brec, _, _ = _do_step_rec(scratch, step, sid, fault='log')
+            shutil.rmtree(scratch, ignore_errors=True)
+            for idx in (_fault_indices(brec.ncalls, fault_cap) if only_fault is None else [only_fault[1]]):
+                eidx = idx % (len(FAULT_ERRNOS) - 1) if idx % 7 else len(FAULT_ERRNOS) - 1
+                if only_fault is not None:
+                    if idx != only_fault[1]:
+                        continue
+                    eidx = only_fault[2]
+                scratch = os.path.join(root, f'fault{i}-{idx}')
+                shutil.copytree(snap, scratch)
+                foutcome, frec, _, _ = _do_step_rec(scratch, step, sid, fault=(idx, FAULT_ERRNOS[eidx]))
+                if frec.hit is not None:
+                    faults.append(dict(frec.hit, i=i, e=eidx, outcome=foutcome, view=_read_view(scratch),
+                                       tree=_read_tree(scratch), trace=_canon_calls(frec.calls)))
+                shutil.rmtree(scratch, ignore_errors=True)
         sid = nsid
     shutil.rmtree(root, ignore_errors=True)
     return {'history': history, 'events': events, 'outcomes': outcomes, 'traces': traces, 'views': views, 'trees': trees,
-            'crashes': crashes, 'killed': killed, 'sid_start': sid_start}
+            'crashes': crashes, 'killed': killed, 'sid_start': sid_start, 'faults': faults, 'faulted': faulted,
+            'concrete': concrete}
 
 
 def run_long_lived(history: list) -> list:
@@ -641,8 +801,8 @@ def run_long_lived(history: list) -> list:
     views = [_read_view(root, clear=False)]
     sid = 0
     for item in history:
-        if item[0] == 'crash':
-            continue  # a dead process takes its caches along
+        if item[0] in ('crash', 'fault'):
+            continue  # a dead process takes its caches along (and a faulted step is retried by the history itself)
         _, _, sid, _ = _do_step(root, item, sid, clear=False)
         views.append(_read_view(root, clear=False))
     shutil.rmtree(root, ignore_errors=True)
@@ -652,6 +812,9 @@ def run_long_lived(history: list) -> list:
 def _worker(args):
     history, crash_points = args
     try:
+        if crash_points in ('faults', 'faults-quick'):
+            return run_history(history, crash_points=False, fault_points=True,
+                               fault_cap=FAULT_CAP if crash_points == 'faults' else 20)
         r = run_history(history, crash_points)
         if crash_points == 'long-lived':
             r['long_lived'] = run_long_lived(history)
@@ -738,7 +901,11 @@ def oracle_step(step, outcome, before, after) -> list:
         else:
             want = [['rel', name, vidx, 'dir', 'ok']] + [['member', name, vidx, i, ['file', b]] for i, b in model[1]]
         if sorted(new, key=repr) != sorted(want, key=repr):
-            out.append((f'publish of {NAMES[name]}-{_ver(spelt)} added {[_short(f) for f in new]}', 'publish-wrong-content'))
+            extra = [_short(f) for f in new if f not in want]
+            lacking = [_short(f) for f in want if f not in new]
+            out.append((f'publish of {NAMES[name]}-{_ver(spelt)} ({kind} package) added {[_short(f) for f in new]}: not exactly '
+                        f'the package pushed (not in it: {extra}; missing or with other bytes: {lacking})',
+                        'publish-wrong-content'))
     else:
         _, proj, spelt, ordinal, states = step
         vidx = _rank(spelt)
@@ -810,7 +977,11 @@ class C05(fw.Check):
             'when it performs a micro-operation or reads. Oracle: a successful commit through any handle adds exactly one '
             'generation to the release the handle addresses, numbered one above what a fresh reader saw right before, holding the '
             'bytes dumped through that handle since begin; nothing else changes; look = the fresh reader\'s tag of a generation '
-            'the handle can be bound to.')
+            'the handle can be bound to. Transient I/O faults: every step of the corpus / recovery corpus / first random '
+            'histories re-run with an OSError (EMFILE, EACCES, EIO, ESTALE; ENOENT where true) raised once at up to 20 (thorough '
+            '36) evenly spread file-system calls (reads included); fault items inside recovery and handle histories; one case = '
+            'one (history prefix, call index, errno). Oracle: raised -> view unchanged; succeeded -> exactly the undisturbed '
+            'effect. Packages: file / tree / rebuilt tree (same version, other members and bytes).')
     TRUSTED = [
         'POSIX semantics assumed by the model: rename atomic, a created directory entry is visible, write may stop after '
         'any prefix; process death only (no fsync in the code: power loss is not claimed)',
@@ -833,6 +1004,11 @@ class C05(fw.Check):
         'BaseException raised inside it followed by its exit; the fresh reader is a newly forked process per distinct tree (the '
         'view is a function of the raw tree, which is read directly); crash points of an operation are explored on a forked copy '
         'of the process (same handles, same caches) with the tree restored afterwards')
+    TRUSTED.append(
+        'transient faults are raised from the wrapped os / io / shutil entry points only (copystat internals and descriptor '
+        'level I/O are not fault points); a fault inside rmtree(ignore_errors=True) is emulated as "swallowed, nothing removed"; '
+        'legitimately absorbed faults (mkdir of an existing directory, os.path predicates of the standard library, a truthful '
+        'ENOENT) are recognised by a harness rule')
     ASSUMPTIONS = ['writers interleave at the granularity of registry calls (any number of handles / processes); two writers racing '
                    'between the listing and the rename of one commit are not modelled (the property quantifies over histories)',
                    'uuid4 state ids are fresh (in the harness: a counter per process, disjoint ranges)']
@@ -889,7 +1065,7 @@ class C05(fw.Check):
                     vidx = rng.choice(cand) if cand else rng.randrange(len(VERSIONS))
                 else:
                     vidx = rng.choice(have) if have and rng.random() < 0.5 else rng.randrange(len(VERSIONS))
-                kind = rng.choice(['file', 'file', 'dir'])
+                kind = rng.choice(['file', 'file', 'dir', 'dir2'])
                 hist.append(['publish', dproj, name, self._spell(vidx, 0.25), kind])
                 if dproj == name and (not have or vidx > max(have)):
                     known.setdefault(name, []).append(vidx)
@@ -940,11 +1116,19 @@ class C05(fw.Check):
             step[i] = first.setdefault((proj, _rank(step[i])), step[i])
             base.append(step)
         for step in base:
-            if ncrash < 3 and rng.random() < 0.4:
+            roll = rng.random()
+            if ncrash < 3 and roll < 0.4:
                 out.append(['crash', step, rng.random(), rng.random() < 0.3])
                 ncrash += 1
                 if rng.random() < 0.25:
                     continue  # never retried
+                if step[0] == 'publish' and rng.random() < 0.5:  # the retry is a REBUILD: same version, other content
+                    step = step[:4] + [rng.choice([k for k in KINDS if k != step[4]])]
+            elif ncrash < 3 and roll < 0.55:  # a transient I/O fault: the process lives on and (mostly) tries again
+                out.append(['fault', step, rng.random(), rng.randrange(len(FAULT_ERRNOS))])
+                ncrash += 1
+                if rng.random() < 0.25:
+                    continue
             out.append(step)
         if ncrash == 0:
             out.insert(len(out) - 1, ['crash', out[-1], rng.random(), False])
@@ -953,7 +1137,21 @@ class C05(fw.Check):
     def _recovery_corpus(self):
         s1, s2 = [[1, 2, 3]], [[4], [5, 6]]
         pf, pd = ['publish', 0, 0, 1, 'file'], ['publish', 0, 0, 1, 'dir']
+        pd2 = ['publish', 0, 0, 1, 'dir2']
+        t1, t2 = ['train', 0, 1, 1, s1], ['train', 0, 1, 2, s2]
         return [
+            # a tree publish killed while / after copying, then the REBUILT package of the same (never released) version:
+            # the listed package must be exactly the second one (no member of the dead attempt survives)
+            [['crash', pd, 7, False], pd2, ['train', 0, 1, 1, s1]],
+            [['crash', pd, 5, True], pd2],
+            [['crash', pd2, 8, False], pd, ['crash', ['publish', 0, 0, 3, 'dir2'], 6, False], ['publish', 0, 0, 3, 'dir']],
+            # transient I/O faults: in the listing scan right before a commit / a publish decision, in the moves, in the
+            # tag write, in a member copy (copytree goes on with the other members), in rmtree (swallowed); the process
+            # tries again
+            [pf, t1, ['fault', t2, 0.5, 0], t2, ['fault', ['train', 0, 1, 3, s1], 0.55, 2], ['train', 0, 1, 3, s1]],
+            [pf, t1, ['fault', ['publish', 0, 0, 0, 'file'], 0.4, 1], ['fault', ['publish', 0, 0, 3, 'dir'], 0.8, 3], pd2],
+            [['fault', pd, 0.7, 2], pd2, ['fault', t1, 0.9, 0], ['fault', t1, 0.97, 1], t1],
+            [['crash', pd, 6, False], ['fault', pd2, 0.35, 2], pd2, t1, ['fault', t2, 0.62, 3], t2],
             # a directory publish killed while copying, retried (rmtree of the leftover), then as a file package
             [['crash', pd, 4, False], pd, ['train', 0, 1, 1, s1]],
             [['crash', pd, 5, True], ['publish', 0, 0, 1, 'file']],
@@ -985,7 +1183,9 @@ class C05(fw.Check):
 
         out = []
         for ev, sid in zip(events, sid_start):
-            if ev[0] == 'crash':
+            if ev[0] == 'fault':
+                out.append(['fault', one(ev[1], sid), ev[2]])
+            elif ev[0] == 'crash':
                 out.append(['crash', one(ev[1], sid), ev[2], 'none' if not ev[3] else ev[4]])
             else:
                 out.append(one(ev, sid))
@@ -1046,21 +1246,37 @@ class C05(fw.Check):
                 cut = 'none' if not c['cut'] else str(c['model_cut'])
                 lines.append(f'(run {tag} {enc} ({c["i"]} {c["k"]} {cut}))')
                 index.append((r, 'crash', c))
+            for f in r.get('faults', []):
+                if f['outcome'] == 'ok':  # absorbed: the plain step (compared below without the model)
+                    continue
+                lines.append(f'(frun {tag} {enc} ({f["i"]} {f["done"]}))')
+                index.append((r, 'fault', f))
         answers = self.model(lines)
+        for r in results:
+            for f in r.get('faults', []):
+                at = {'history': r['concrete'][: f['i'] + 1], 'fault': [f['i'], f['index'], f['e']]}
+                if f['outcome'] == 'ok':
+                    if not f['lenient']:
+                        self.diverge(f'transient {f["errno"]} at a {f["kind"]} call was swallowed', at, 'ok', 'raises')
+                    elif f['view'] != r['views'][f['i'] + 1] or f['tree'] != r['trees'][f['i'] + 1]:
+                        self.diverge(f'an absorbed {f["errno"]} at a {f["kind"]} call changed the result of the step', at,
+                                     None, None)
         for (r, kind, c), ans in zip(index, answers):
             m = sexp.num(sexp.loads(ans))
-            hist = r['events']
+            hist = r['concrete']
             if m == 'bad-op' or m[0] != 'ok':
                 self.diverge('model rejected the request', {'history': hist}, None, m)
                 continue
             mview = sorted(m[2], key=repr)
             mtree = self._model_tree(m[4])
-            where = {'history': hist, 'crash': c and [c['i'], c['k'], c['cut']]}
+            where = {'history': hist, 'crash': [c['i'], c['k'], c['cut']] if kind == 'crash' else None}
+            if kind == 'fault':
+                where = {'history': hist[: c['i'] + 1], 'fault': [c['i'], c['index'], c['e']]}
             if m[3] != 'true':
                 self.diverge('model tree is not well formed (Fs.WF)', where, None, m[3])
             if kind == 'full':
                 for i, (mo, outcome, trace) in enumerate(zip(m[1], r['outcomes'], r['traces'])):
-                    if outcome == 'crashed' or mo == 'crashed':
+                    if outcome in ('crashed', 'faulted') or mo in ('crashed', 'faulted'):
                         if outcome != mo:
                             self.diverge('event kind', {'history': hist, 'step': i}, outcome, mo)
                         continue
@@ -1072,6 +1288,8 @@ class C05(fw.Check):
                 rview, rtree, what = r['views'][-1], r['trees'][-1], 'after the history'
             elif kind == 'killed':
                 rview, rtree, what = r['views'][c['i'] + 1], r['trees'][c['i'] + 1], 'after a process death inside the history'
+            elif kind == 'fault':
+                rview, rtree, what = c['view'], c['tree'], f'after a transient {c["errno"]} at a {c["kind"]} call'
             else:
                 rview, rtree, what = c['view'], c['tree'], 'after a crash'
             if mview != sorted(_strip(rview), key=repr):
@@ -1083,10 +1301,18 @@ class C05(fw.Check):
     def _judge(self, r):
         """oracle on one base-run result; accounts the cases."""
         hist = r['events']
+        conc = r.get('concrete') or [e[:4] if e[0] == 'crash' else e for e in hist]
         killed = {kd['i']: kd for kd in r['killed']}
         for i, ev in enumerate(hist):
             before, after = r['views'][i], r['views'][i + 1]
-            wit = [e[:4] if e[0] == 'crash' else e for e in hist[: i + 1]]
+            wit = conc[: i + 1]
+            if i in r.get('faulted', {}):
+                fd = r['faulted'][i]
+                self.case(('faulted', repr(wit)), f'transient I/O fault inside the history ({fd["step"][0]}, {fd["kind"]} call), '
+                          f'history goes on', nontrivial=True, sample={'history': wit})
+                for what, sig in self._judge_fault(fd, fd['step'], before, after):
+                    self.violate(what, {'history': wit, 'crash': None}, sig)
+                continue
             if ev[0] == 'crash':
                 kd = killed[i]
                 self.case(('killed', repr(wit)), f'process death inside the history ({ev[1][0]}), history goes on', nontrivial=True,
@@ -1105,9 +1331,16 @@ class C05(fw.Check):
                       sample={'history': wit, 'outcome': r['outcomes'][i], 'micro_ops': natoms})
             for what, sig in oracle_step(step, r['outcomes'][i], before, after):
                 self.violate(what, {'history': wit, 'crash': None}, sig)
+        for f in r.get('faults', []):
+            i = f['i']
+            wit = conc[: i + 1]
+            self.case(('fault', repr(wit), f['index'], f['e']), f'transient {f["errno"]} at a {f["kind"]} call of {hist[i][0]}',
+                      nontrivial=True)
+            for what, sig in self._judge_fault(f, hist[i], r['views'][i], f['view']):
+                self.violate(what, {'history': wit, 'crash': None, 'fault': [i, f['index'], f['e']]}, sig)
         for c in r['crashes']:
             i = c['i']
-            wit = [e[:4] if e[0] == 'crash' else e for e in hist[: i + 1]]
+            wit = conc[: i + 1]
             self.case(('crash', repr(wit), c['k'], c['cut']),
                       f'crash in {hist[i][0]} ' + ('inside a write' if c['cut'] else 'between operations'), nontrivial=True)
             if not c['crashed']:
@@ -1122,13 +1355,29 @@ class C05(fw.Check):
                              {'next_operation': at})
         if 'long_lived' in r:
             plain = [v for v, o in zip(r['views'][1:], r['outcomes']) if o != 'crashed']
-            if not any(e[0] == 'crash' for e in hist):
+            if not any(e[0] in ('crash', 'fault') for e in hist):
                 for n, (fresh, cached) in enumerate(zip([r['views'][0]] + plain, r['long_lived'])):
                     self.case(('long-lived', repr(hist[:n])), 'long-lived reader (caches never cleared)', nontrivial=n > 0)
                     if fresh != cached:
                         diff = [_short(f) for f in cached if f not in fresh] or [_short(f) for f in fresh if f not in cached]
                         self.violate(f'a long-lived reader (cached tags / states) sees {diff[:2]} differently from a fresh reader',
                                      {'history': hist[:n], 'crash': None, 'reader': 'long-lived'}, 'long-lived-reader-stale')
+
+    @staticmethod
+    def _judge_fault(f, step, before, after) -> list:
+        """the contract of a transient I/O fault: the step fails visibly and changes nothing a reader can see, or it
+        succeeds with exactly the effect of the undisturbed step — never a renumbered / overwritten / wrongly accepted item"""
+        head = f'transient {f["errno"]} at file-system call {f["index"]} ({f["kind"]}, after {f["done"]} micro-operations) of {step[0]}: '
+        out = [(head + what, sig) for what, sig in corrupt_items(after)]
+        if f['outcome'] != 'ok':
+            pb = [x for x in before if not x[0].startswith('latest')]
+            pa = [x for x in after if not x[0].startswith('latest')]
+            diff = [_short(x) for x in pa if x not in pb] or [_short(x) for x in pb if x not in pa]
+            if diff:
+                out.append((head + f'the step raised ({f["outcome"]}) but {diff[:2]} changed for a reader', 'fault-changed-view'))
+        else:
+            out += [(head + 'the step reported success, but ' + what, sig) for what, sig in oracle_step(step, 'ok', before, after)]
+        return out
 
     def _run_batch(self, histories, pool, mode=True):
         jobs = [(h, mode) for h in histories]
@@ -1170,7 +1419,7 @@ class C05(fw.Check):
 
         runs = []
         for hist in histories:
-            hist = [s if s[0] == 'train' else s[:4] + ['file'] for s in hist if s[0] != 'crash']
+            hist = [s if s[0] == 'train' else s[:4] + ['file'] for s in hist if s[0] not in ('crash', 'fault')]
             registry = volatile.Registry()
             root = str(registry._path)  # pylint: disable=protected-access
             directory = asset.Directory(registry)
@@ -1269,7 +1518,7 @@ class C05(fw.Check):
     def correspondence(self):
         for name in NAMES:  # before forking: the workers and the oracle must see the very same package bytes
             for text in SPELLINGS:
-                for kind in ('file', 'dir'):
+                for kind in KINDS:
                     _package(name, text, kind)
         impl = self._detect_impl()
         self.extra['implementation_variant'] = {'staged': impl[0], 'keyFirst': impl[1]}
@@ -1277,10 +1526,10 @@ class C05(fw.Check):
                           f'Project.put checks the project key {"first" if impl[1] else "only for listed projects"} '
                           f'(model variant Impl.mk {str(impl[0]).lower()} {str(impl[1]).lower()})')
         self._planted_divergence(impl)
-        histories = self._corpus() + [self._random_history() for _ in range(self.n(60, 500))] \
-            + [self._random_foreign_key_history() for _ in range(self.n(25, 300))]
+        histories = self._corpus() + [self._random_history() for _ in range(self.n(48, 500))] \
+            + [self._random_foreign_key_history() for _ in range(self.n(20, 300))]
         nlong = len(self._corpus()) + self.n(30, 200)  # these are also replayed by a long-lived reader
-        recovery = self._recovery_corpus() + [self._random_recovery_history() for _ in range(self.n(40, 300))]
+        recovery = self._recovery_corpus() + [self._random_recovery_history() for _ in range(self.n(32, 300))]
         exhaustive = [] if self.quick else list(self._exhaustive(4))
         ctx = multiprocessing.get_context('fork')
         ncrash = nkilled = 0
@@ -1296,6 +1545,14 @@ class C05(fw.Check):
                         ncrash += len(r['crashes'])
                         nkilled += len(r['killed'])
                     self._compare(results, impl)
+            # transient I/O faults: every file-system call (reads included) of every step of these histories raises once
+            ftargets = self._corpus() + self._recovery_corpus() + histories[len(self._corpus()):][:self.n(3, 60)]
+            fresults = self._run_batch(ftargets, pool, 'faults-quick' if self.quick else 'faults')
+            for r in fresults:
+                self._judge(r)
+            self._compare(fresults, impl)
+            self.extra['fault_points'] = sum(len(r['faults']) for r in fresults)
+            self.extra['absorbed_faults'] = sum(1 for r in fresults for f in r['faults'] if f['outcome'] == 'ok')
         self.extra['histories'] = len(histories) + len(recovery) + len(exhaustive)
         self.extra['crash_recovery_histories'] = len(recovery)
         self.extra['crashed_runs'] = ncrash
@@ -1304,6 +1561,7 @@ class C05(fw.Check):
         self._volatile(self._corpus() + [self._random_history() for _ in range(self.n(20, 200))], impl)
         if not self.quick:
             self._fresh_process(histories[:7] + histories[7:7 + 30] + recovery[:20])
+        self._shrink(0)
 
     def _handles(self, impl):
         """several writers: histories over long-lived and fresh handles in several (real) processes, interleaved at the
@@ -1313,9 +1571,9 @@ class C05(fw.Check):
         corpus = c05h.corpus()
         every = c05h.exhaustive_interleavings()  # 84 + 70 interleavings of two writers' events: all in thorough, a sample in quick
         rnd = (every if not self.quick else self.rng.sample(every, 12)) \
-            + [c05h.random_handles(self.rng) for _ in range(self.n(60, 500))]
+            + [c05h.random_handles(self.rng) for _ in range(self.n(48, 500))]
         self.rng.shuffle(rnd)
-        nfull = self.n(6, 80)  # every crash point of every commit and publish of these (thorough: also of the dumps)
+        nfull = self.n(5, 80)  # every crash point of every commit and publish of these (thorough: also of the dumps)
         which = ('commit', 'publish') if self.quick else True
         jobs = [(h, which, None) for h in corpus + rnd[:nfull]] + [(h, False, None) for h in rnd[nfull:]]
         nposix = len(jobs)
@@ -1382,6 +1640,8 @@ class C05(fw.Check):
             os.makedirs(live)
             sid = 0
             for item in hist:
+                if item[0] == 'fault':
+                    continue
                 if item[0] == 'crash':
                     step, where = item[1], item[2]
                     k = where if isinstance(where, int) else int(where * 6)
@@ -1406,24 +1666,49 @@ class C05(fw.Check):
         shutil.rmtree(root, ignore_errors=True)
 
     def search(self, reason):
-        # widen around the diverging histories: all their prefixes and single-step variations, oracle on the real code
-        seeds = [d.case['history'] for d in self.divergences if isinstance(d.case, dict) and 'history' in d.case][:10]
-        tried = 0
-        for hist in seeds:
+        # widen around the diverging histories (volatile ones are judged by their own oracle): their prefixes and
+        # single-item variations — a crash dropped; a publish as each other kind of package, in particular the REBUILT
+        # content after a killed publish of the same version; a killed / faulted attempt inserted before a publish or a
+        # training; one more state — each with every crash point and every fault point, oracle on the real code
+        seeds = []
+        for d in self.divergences:
+            if isinstance(d.case, dict) and 'history' in d.case and d.case.get('registry') != 'volatile' \
+                    and d.case['history'] not in seeds:
+                seeds.append(d.case['history'])
+        seeds.sort(key=len)
+        tried, before = 0, len(self.violations)
+        for hist in seeds[:10]:
             variants = [hist[:n] for n in range(1, len(hist) + 1)]
             for i, s in enumerate(hist):
-                if s[0] == 'crash':
+                if s[0] in ('crash', 'fault'):
                     variants.append(hist[:i] + hist[i + 1:])
+                    inner = s[1]
+                    if inner[0] == 'publish':  # the next attempt carries other content
+                        for kind in KINDS:
+                            if kind != inner[4]:
+                                variants.append(hist[: i + 1] + [inner[:4] + [kind]] + hist[i + 1:])
                 elif s[0] == 'publish':
-                    variants.append(hist[:i] + [s[:4] + ['dir' if s[4] == 'file' else 'file']] + hist[i + 1:])
+                    for kind in KINDS:
+                        if kind != s[4]:
+                            variants.append(hist[:i] + [s[:4] + [kind]] + hist[i + 1:])
+                            variants.append(hist[:i] + [['crash', s[:4] + [kind], 0.8, False], s] + hist[i + 1:])
                 else:
                     variants.append(hist[:i] + [s[:4] + [s[4] + [[9, 9, 9]]]] + hist[i + 1:])
+                    variants.append(hist[:i] + [['fault', s, 0.5, i % len(FAULT_ERRNOS)], s] + hist[i + 1:])
+            seen = set()
             for v in variants:
-                r = _worker((v, True))
-                if 'machinery' in r:
+                if repr(v) in seen:
                     continue
-                tried += 1
-                self._judge(r)
+                seen.add(repr(v))
+                for mode in (True, 'faults'):
+                    r = _worker((v, mode))
+                    if 'machinery' in r:
+                        continue
+                    tried += 1
+                    self._judge(r)
+            if len(self.violations) > before and tried > 60:
+                break
+        self._shrink(before)
         # handle histories: every crash point of every writing event of the diverging interleavings, their prefixes, the
         # same events with every handle in one process, and on the volatile registry
         from props import c05h
@@ -1443,6 +1728,39 @@ class C05(fw.Check):
                 c05h.judge(self, r)
         self.notes.append(f'failing-input search ({reason}): {tried} neighbouring histories x all crash points, '
                           f'{htried} handle interleavings')
+
+    def _shrink(self, start: int) -> None:
+        """every violation found from index `start` on with a plain-history witness (first per root cause) is replaced by
+        the smallest history that still fails with the same signature: items dropped one at a time, last first"""
+        seen = set()
+        for n in range(start, len(self.violations)):
+            v = self.violations[n]
+            w = v.witness
+            if v.signature in seen or not isinstance(w, dict) or 'history' not in w or w.get('registry') or w.get('reader'):
+                continue
+            seen.add(v.signature)
+            if len(seen) > 4:
+                break
+            best, what, budget = list(w['history']), None, 30
+            extra = {k: w[k] for k in ('crash', 'fault') if w.get(k)}
+            i = len(best) - 2
+            while i >= 0 and budget > 0:
+                cand = best[:i] + best[i + 1:]
+                shift = dict(extra)
+                for k in shift:  # the crash / fault point refers to the last item
+                    shift[k] = [len(cand) - 1] + list(shift[k][1:])
+                budget -= 1
+                try:
+                    found = [x for x in self._replay(dict(shift, history=cand)) if x.signature == v.signature]
+                except Exception:  # pylint: disable=broad-except
+                    found = []
+                if found:
+                    best, what = cand, found[0].what
+                    extra = shift
+                i -= 1
+            if what is not None:
+                self.violations[n] = fw.Violation(what, dict(w, history=best, **extra), v.signature,
+                                                  {'shrunk_from': len(w['history'])})
 
     def replay_finding(self, entry):
         """Re-run a witness; for a listed entry only a violation of *its* root cause (signature) counts as its return —
@@ -1464,7 +1782,7 @@ class C05(fw.Check):
 
             for name in NAMES:
                 for text in SPELLINGS:
-                    for kind in ('file', 'dir'):
+                    for kind in KINDS:
                         _package(name, text, kind)
             crash = w.get('crash')
             if w.get('registry') == 'volatile':
@@ -1483,7 +1801,7 @@ class C05(fw.Check):
             self._judge(r)
         else:
             crash = w.get('crash')
-            self._judge(run_history(hist, crash_points=crash is not None, only=crash))
+            self._judge(run_history(hist, crash_points=crash is not None, only=crash, only_fault=w.get('fault')))
         found = self.violations[before:]
         del self.violations[before:]
         return found
